@@ -888,6 +888,15 @@ def gen_cli(rng, tier):
     def withaudio(o):
         o.update({'aenc': 'hex', 'has_rate': True, 'has_ch': True})
         return o
+    def text_variants(d):
+        """Literal file contents derived from the hexadecimal text of d: (text bytes, …); whether each is
+        hexadecimal text is decided by the specification (TraceCli.HexText), not here."""
+        h = ''.join('%02x' % b for b in d)
+        vs = [h, h.upper(), h + '\n', h + '\r\n', '  ' + h + '\t\n', ' '.join(h[i:i + 2] for i in range(0, len(h), 2)),
+              h[0] + ' ' + h[1:], '\n'.join(h[i:i + 16] for i in range(0, len(h), 16)),
+              '+' + h[1:], '-' + h[1:], h[0] + '+' + h[2:], h[:2] + '+' + h[3:], h[:-2] + '+' + h[-1], '0x' + h, '0X' + h, h + 'g0', 'g' + h[1:],
+              h[:-1], h + '0', h[:4] + '_' + h[5:], h[:6] + '  +' + h[7:], '+', '++', '+0', '-0', ' ', 'zz', h[:-1] + '.', '#' + h[1:]]
+        return [list(v.encode()) for v in vs]
     # baseline and one-at-a-time variations
     singles = []
     for vn in VN:
@@ -923,6 +932,21 @@ def gen_cli(rng, tier):
         o = withaudio(base())
         o.update(s1)
         out.append(finish(o))
+    # literal input-file contents: blanks, case, signs, prefixes, stray characters
+    kf = video_frame(rng, 'h264', True, 5)
+    for t in text_variants(kf):
+        o = finish(base())
+        o['opts']['video'] = {'enc': 'text', 'data': kf, 'text': t}
+        out.append(o)
+    af = audio_frame(rng, 'aac', 6)
+    for t in text_variants(af):
+        o = finish(withaudio(base()))
+        o['opts']['audio'] = {'enc': 'text', 'data': af, 'text': t}
+        out.append(o)
+    for t in text_variants(kf):
+        for js in (False, True):
+            out.append({'kind': 'cli', 'cmd': 'validate', 'opts': {'video': {'enc': 'text', 'data': kf, 'text': t}, 'audio': {'enc': 'absent', 'data': []}, 'json': js}})
+            out.append({'kind': 'cli', 'cmd': 'validate', 'opts': {'video': {'enc': 'hex', 'data': kf}, 'audio': {'enc': 'text', 'data': af, 'text': t}, 'json': js}})
     # seeded random combinations
     for _ in range(60 if tier == 'quick' else 1500):
         o = base()
